@@ -5,7 +5,8 @@ import YaegiVerif.Model.ShareGrowth
 import YaegiVerif.Spec.GoValue
 import YaegiVerif.Generated.C04
 /- Line-protocol front end for C04 (glue, not a proof obligation).
-     run OP…   → y=<status>~<line>|<line>… g=<status>~<line>|… d=<0|1> c=<class or ->
+     run OP…   → y=<status>~<line>|<line>… g=<status>~<line>|… d=1 c=<formerly diverging shapes, comma separated, or ->
+               (d: the refinement theorem has no domain restriction any more; the field is kept for old tooling)
    The yaegi model runs with the facts regenerated from the repository (Generated.C04.share).
    Terms:
      VAL   (i n) | (a VAL…) | (s VAL…) | nil | nils
@@ -15,7 +16,7 @@ import YaegiVerif.Generated.C04
            | (new VAL) | (sl LEXP lo hi max) with _ for an absent bound | (lk LEXP IEXP VAL) | (len LEXP) | (cap LEXP) | (id REXP)
      SOP   (as LEXP REXP) | (op LEXP k) | (def x REXP) | (mul (LEXP…) (REXP…)) | (muld (x…) (0|1…) (VAL…) (REXP…))
            | (app d LEXP REXP (REXP…) VAL esz noscan) | (apps d LEXP REXP REXP VAL esz noscan) | (cp REXP REXP)
-           | (ms LEXP IEXP REXP) | (md LEXP IEXP) | (lk2 d x ok LEXP IEXP VAL) | (call d LEXP LEXP k REXP) | (show x…)
+           | (ms LEXP IEXP REXP) | (md LEXP IEXP) | (lk2 d x ok LEXP IEXP VAL [rdx rdok]) | (call d LEXP LEXP k REXP) | (show x…)
      OP    SOP | (rng LEXP i v (SOP…)) | (capt LEXP x LEXP k (n…)) -/
 namespace YaegiVerif.Driver.C04
 open YaegiVerif YaegiVerif.Share
@@ -82,7 +83,9 @@ def parseS : Sexp → Option SOp
   | .list [.atom "ms", m, k, r] => do some (.mapSet (← parseL m) (← parseI k) (← parseR r))
   | .list [.atom "md", m, k] => do some (.mapDel (← parseL m) (← parseI k))
   | .list [.atom "lk2", d, x, ok, m, k, z] => do
-    some (.lookup2 (← d.bool?) (← x.nat?) (← ok.nat?) (← parseL m) (← parseI k) (← parseVal z))
+    some (.lookup2 (← d.bool?) (← x.nat?) (← ok.nat?) (← parseL m) (← parseI k) (← parseVal z) false false)
+  | .list [.atom "lk2", d, x, ok, m, k, z, rdx, rdok] => do
+    some (.lookup2 (← d.bool?) (← x.nat?) (← ok.nat?) (← parseL m) (← parseI k) (← parseVal z) (← rdx.bool?) (← rdok.bool?))
   | .list [.atom "call", d, l, sel, k, a] => do
     some (.callMut (← d.bool?) (← parseL l) (← parseL sel) (← k.int?) (← parseR a))
   | .list (.atom "show" :: xs) => (xs.mapM Sexp.nat?).map .show
@@ -103,7 +106,8 @@ def handle (args : List Sexp) : String :=
      | some ops =>
        let y := obsOf (runY Generated.C04.share goGrowth St.empty ops)
        let g := obsOf (Spec.runGo goGrowth St.empty ops)
-       s!"y={showObs y} g={showObs g} d={if Dom ops then "1" else "0"} c={(classOf ops).getD "-"}"
+       let shapes := (shapesOf ops).eraseDups
+       s!"y={showObs y} g={showObs g} d=1 c={if shapes.isEmpty then "-" else joinWith "," shapes}"
      | none => "bad-op")
   | _ => "bad-op"
 
